@@ -4,6 +4,7 @@ import re
 from ..cfg import FnView, Renderer, walk, show, strip, branches
 from ..facts import callee_names, short
 from ..sig import fn_tokens
+from ..util import expr_vars
 
 EXPLANATION = (
     "Static rules over the MIR of table/src/lib.rs and packet/src/bgp.rs: R02.1 extracts the ordered list of "
@@ -566,6 +567,22 @@ def check_ecmp(prog, efv, cmp_order, r):
                    % (which, ", ".join(cs), ", ".join(want), ("; missing: " + ", ".join(missing)) if missing else ""), fv.loc(bi))
         else:
             r.ok("ecmp_paths %s tuple = %s" % (which, cs))
+        # the per-path tuple describes the path under test: every component is computed from the closure's own argument. A
+        # component computed from the captured best path compares the best path with itself, so that step never ends the tied run.
+        if which == "per-path" and fv.key != efv.key:
+            rn = Renderer(fv, depth=30, through_names=True)
+            params = {fv.local_name.get(l) for l in range(2, fv.f.get("argc", 0) + 1)} - {None}
+            rv = [s_ for s_ in fv.blocks[bi]["s"] if s_.get("rv") and s_["rv"]["r"] == "agg" and s_["rv"]["k"] == "tuple" and len(s_["rv"]["fields"]) >= 3][0]["rv"]
+            for c, fo in zip(cs, rv["fields"]):
+                vs = set(expr_vars(rn.operand(fo, 30)))
+                q = fo.get("c") or fo.get("m")
+                if q is not None and not q.get("p"):
+                    for db, dsi, dst in fv.defs().get(q["l"], []):
+                        if db in fv.live:
+                            vs |= set(expr_vars(rn.call_expr(dst, 30, db) if dsi == "t" else rn.rvalue(dst["rv"], 30)))
+                if params and not (vs & params):
+                    r.fail(efv.name, "tuple-component-not-of-path:%s" % c, "the `%s` component of the per-path tuple is not computed from the path under test (it reads %s): that step compares the best "
+                           "path with itself, so a path that loses to the best only at this step is reported as tied and its next hop goes into the FIB request" % (c, sorted(vs)[:3]), fv.loc(bi))
 
 
 ORDER_OPS = re.compile(r".*(slice::<impl \[T\]>::(sort|sort_unstable|sort_by|sort_unstable_by|sort_by_key|sort_unstable_by_key|partition_point|binary_search|binary_search_by|select_nth_unstable))"
